@@ -491,6 +491,39 @@ def _(f, a):
     return (f.to_frame_go(), f.to_frame_he(), f.to_frame())
 
 
+def _grow(g):
+    """Grow a grow-only frame derived from a static container (the static source must not notice)."""
+    lab = '__grown__' if g.columns.depth == 1 else ('__grown__',) * g.columns.depth
+    try:
+        g[lab] = 0
+    except Exception:  # noqa: BLE001 - a typed columns index may refuse the label: nothing grown, nothing to observe
+        pass
+    return g
+
+
+@op('derive_go_and_grow', A(how=st.sampled_from(['to_frame_go', 'iter_element_apply', 'ctor', 'T', 'iloc', 'rename', 'index_to_frame_go', 'columns_go'])))
+def _(f, a):
+    how = a['how']
+    if how == 'to_frame_go':
+        return _grow(f.to_frame_go())
+    if how == 'iter_element_apply':
+        return _grow(f.to_frame_go().iter_element().apply(lambda x: x))
+    if how == 'ctor':
+        return _grow(sf.FrameGO(f))
+    if how == 'T':
+        return _grow(f.to_frame_go().transpose())
+    if how == 'iloc':
+        return _grow(f.to_frame_go().iloc[:, :])
+    if how == 'rename':
+        return _grow(f.to_frame_go().rename('g'))
+    if how == 'index_to_frame_go':
+        return _grow(f.index.to_frame_go()) if f.index.depth > 1 else None
+    g = sf.IndexGO(f.columns) if f.columns.depth == 1 else sf.IndexHierarchyGO(f.columns)
+    if f.columns.depth == 1 and len(g):
+        g.append('__grown__')
+    return g
+
+
 @op('copy_pickle', A(how=st.sampled_from(['deepcopy', 'pickle', 'copy'])))
 def _(f, a):
     if a['how'] == 'deepcopy':
@@ -695,6 +728,20 @@ def _(s, a):
     return (s.to_frame(), s.to_frame_go(), s.to_series_he(), s.to_pairs(), s.to_frame(axis=0))
 
 
+@sop('searchsorted', A(side=st.booleans()))
+def _(s, a):
+    vals = s.values[:2]
+    if not len(vals) or s.dtype.kind not in 'iufU':
+        return None
+    return (s.iloc_searchsorted(vals, side_left=a['side']), s.loc_searchsorted(vals, side_left=a['side']), s.loc_searchsorted(list(vals) + [vals.max()], side_left=False))
+
+
+@sop('derive_go_and_grow')
+def _(s, a):
+    g = s.to_frame_go()
+    return (_grow(g), _grow(s.to_frame_go(axis=0)) if len(s) else None)
+
+
 @sop('copy_pickle', A(how=st.sampled_from(['deepcopy', 'pickle', 'copy'])))
 def _(s, a):
     if a['how'] == 'deepcopy':
@@ -792,6 +839,32 @@ def _(ix, a):
     if ix.depth == 1:
         return (ix.level_add('L'), ix.to_series(), ix.isin(list(ix)[:1]))
     return (ix.level_add('L'), ix.level_drop(1), ix.level_drop(-1), ix.flat(), ix.to_frame(), ix.label_widths_at_depth(0))
+
+
+@iop('searchsorted_unique', A(miss=st.booleans(), side=st.booleans()))
+def _(ix, a):
+    labs = list(ix)[:2]
+    if not labs:
+        return None
+    vals = [tuple(x) for x in labs] if ix.depth > 1 else labs
+    out = [ix.iloc_searchsorted(vals, side_left=a['side']), ix.loc_searchsorted(vals, side_left=a['side'])]
+    if ix.depth > 1:
+        out += [ix.unique(d) for d in range(ix.depth)] + [ix.unique(list(range(ix.depth)))]
+    else:
+        out.append(ix.unique())
+    return tuple(out)
+
+
+@iop('derive_go_and_grow')
+def _(ix, a):
+    if ix.depth > 1:
+        return (_grow(ix.to_frame_go()), sf.IndexHierarchyGO(ix))
+    g = sf.IndexGO(ix)
+    try:
+        g.append('__grown__')
+    except Exception:  # noqa: BLE001 - a typed index may refuse the label
+        pass
+    return g
 
 
 @iop('astype_fillna', A(dt=st.sampled_from(['object', 'float64', '<U8'])))
